@@ -75,3 +75,34 @@ func init() {
 		},
 	})
 }
+
+func init() {
+	register(&Property{
+		ID: "C12", Title: "System reset",
+		Explanation: "tbd",
+		Rules: []Rule{
+			{Name: "DOM/reset-protocol", Min: 3, Run: ruleResetProtocol, Doc: "re-fetch once per matching entry with its normalised query; flag protocol"},
+			{Name: "CONF/handle-event", Min: 1, Run: ruleHandleEvent, Doc: "derived events go through handleEvent; state events dropped only while resetting"},
+		},
+	})
+	register(&Property{
+		ID: "C13", Title: "Query resources",
+		Explanation: "tbd",
+		Rules: []Rule{
+			{Name: "PAIR/query-lock", Min: 2, Run: ruleQueryLock, Doc: "one lock per cached query released exactly once"},
+			{Name: "DOM/loopvar", Min: 1, Run: ruleLoopVar("rescache", "server", "nats"), Doc: "deferred closures capture no shared loop variable"},
+			{Name: "PAIR/version-bump", Min: 4, Run: ruleVersionBump, Doc: "initial load guarded by the not-loaded test of the same entry"},
+			{Name: "PAIR/loaded-handover", Min: 1, Run: rulePairLoaded, Doc: "repeated Loaded ignored"},
+		},
+	})
+	register(&Property{
+		ID: "C03", Title: "Ordered delivery",
+		Explanation: "tbd",
+		Rules: []Rule{
+			{Name: "CONF/handle-event", Min: 1, Run: ruleHandleEvent, Doc: "handleEvent conformance"},
+			{Name: "PAIR/version-bump", Min: 4, Run: ruleVersionBump, Doc: "version bump"},
+			{Name: "DOM/version-filter", Min: 3, Run: ruleVersionFilter, Doc: "version filter on delivery"},
+			{Name: "DOM/event-gate", Min: 2, Run: ruleEventGate, Doc: "event gate"},
+		},
+	})
+}
